@@ -843,7 +843,7 @@ impl Check for C18
 	}
 	fn rule(&self) -> String
 	{
-		"the real `penne` binary (built from /repo with features alpha,llvm-sys) is run in a scratch directory on: generated valid programs, generated programs with 1-2 token faults, and correctly split 2-3 file programs (optionally in a sub-directory) x subcommand {run, emit, build, default build} x random subsets of {--silent, --verbose, --color=never|always|auto, --arrows=ascii|unicode, --out-dir}; backends are generated scripts that record argv/stdin and exit with a chosen status, selected by flag, environment variable (PENNE_BACKEND / PENNE_LLI), config file and/or PATH default in random combinations, or the real lli. Oracle: exit 0 iff compilation (per the library on the same files) and, for build, the backend succeeded; exactly the backend dictated by flag > env > config > default ran and received the linked IR on stdin; no backend runs after a failed compilation; with --out-dir every module has its .pn.ll equal to the library's per-module IR (and accepted by llvm-as/opt on a sample); `run` shows `Output: <status>` unless --silent and passes the program's stdout (== reference interpreter) through; a failing compilation shows its first diagnostic's [Exxx] unless --silent, and with --color=never every report equals, line for line, the library's rendering of that diagnostic (multi-byte comments in one third of the invalid inputs); program output, including bytes that are not UTF-8, comes through byte for byte; a source file that is not UTF-8 is never compiled (15 cases); the output directory may hold longer files from before (they are replaced, not overwritten in place); a backend that exits before reading a program larger than a pipe buffer makes `build` and `run` fail; no ESC byte with --color=never; ASCII-only output with --arrows=ascii on ASCII sources. Plus core:/vendor: arguments with the repository examples. Non-trivial: >= 2 options, or several files, or a failing backend; distinct by (argv, env, files).".into()
+		"the real `penne` binary (built from /repo with features alpha,llvm-sys) is run in a scratch directory on: generated valid programs, generated programs with 1-2 token faults, and correctly split 2-3 file programs (optionally in a sub-directory) x subcommand {run, emit, build, default build} x random subsets of {--silent, --verbose, --color=never|always|auto, --arrows=ascii|unicode, --out-dir}; backends are generated scripts that record argv/stdin and exit with a chosen status, selected by flag, environment variable (PENNE_BACKEND / PENNE_LLI), config file and/or PATH default in random combinations, or the real lli. Oracle: exit 0 iff compilation (per the library on the same files) and, for build, the backend succeeded; exactly the backend dictated by flag > env > config > default ran and received the linked IR on stdin; no backend runs after a failed compilation; with --out-dir every module has its .pn.ll equal to the library's per-module IR (and accepted by llvm-as/opt on a sample); `run` shows `Output: <status>` unless --silent and passes the program's stdout (== reference interpreter) through; a failing compilation shows its first diagnostic's [Exxx] unless --silent, and with --color=never every report equals, line for line, the library's rendering of that diagnostic (multi-byte comments in one third of the invalid inputs); program output, including bytes that are not UTF-8, comes through byte for byte; a source file that is not UTF-8 is never compiled (15 cases); a program that ends in abort!() / panic!() under the real lli, and a backend that ends itself with KILL / TERM / ABRT / INT, make `run` and `build` fail without an `Output:` line (16 cases); the config file lies in the working directory or below it and names the backend by path or by a bare name found on the PATH; the output directory may hold longer files from before (they are replaced, not overwritten in place); a backend that exits before reading a program larger than a pipe buffer makes `build` and `run` fail; no ESC byte with --color=never; ASCII-only output with --arrows=ascii on ASCII sources. Plus core:/vendor: arguments with the repository examples. Non-trivial: >= 2 options, or several files, or a failing backend; distinct by (argv, env, files).".into()
 	}
 	fn assumptions(&self) -> Vec<String>
 	{
